@@ -16,6 +16,11 @@
 (* in range while fees accrued has E = 0 and must have C = 0 exactly.         *)
 (* Collecting, adding to, partially withdrawing and transferring leave E      *)
 (* untouched, so they can neither lose nor duplicate matured rewards.         *)
+(* On pools on the old side of the scaling migration the sub-unit remainder   *)
+(* of every claim is added back to the accumulator (divided by all remaining   *)
+(* shares): positions in range at that moment are re-credited liq/shares of    *)
+(* less than one unit (ghost RD, upper side only) - found when the recorder    *)
+(* planted large in-range positions; E = 0 and RD = 0 => exactly nothing.      *)
 (*                                                                           *)
 (* Incentives.  The driver binds each incentive denom to one minimum uptime   *)
 (* per history (cfg.incUp).  Checked: a position younger than the uptime of a *)
@@ -23,15 +28,58 @@
 (* collects nothing of it; a position never in range since it was created     *)
 (* has no incentives at all; everything emitted stays accounted for:          *)
 (*   incBal - (claimable + forfeitable + undistributed) is bounded dust.      *)
+(*                                                                           *)
+(* Incentives - exact accrual oracle (ghost G).  Between two logged events    *)
+(* the pool is constant, so over [prev.t, st.t] every live record r (ghost    *)
+(* list G.rec: denom, rate per second, start, ideal remainder - taken from    *)
+(* the CreateIncentive call, never from the stored records) emits             *)
+(*     e_r = min(rate_r * overlap([prev.t, st.t], [start_r, inf)), rem_r)     *)
+(* when the active liquidity L of prev is >= 1 (with less nothing is emitted   *)
+(* and the record keeps its remainder, as documented), and every position     *)
+(* in range in prev ideally accrues e_r * liq / L:   G.ia[id][denom].         *)
+(* A position younger than the denom's uptime that collects / is withdrawn /  *)
+(* is added to FORFEITS what it ideally accrued since its last settlement     *)
+(* (ia - ic); that amount is ideally re-distributed over the liquidity active *)
+(* AFTER the operation (the remainder of the forfeiting position included,    *)
+(* the position created by add-to-position excluded), pro rata; when less     *)
+(* than one unit of liquidity is active it is paid to the owner instead.      *)
+(* Real side: C = claimable + forfeitable now + everything that ever left the *)
+(* position (G.ip: collected or forfeited, from the claimable query taken at  *)
+(* the same block time, tied to the owner's balance change).  Required        *)
+(*     ia - dust  <=  C  <=  ia + u                                           *)
+(* dust[id][denom] (derived from the code's truncations, calibrated):         *)
+(*   + (liq * ulp + 1e-18) per live record of the denom at every persisted    *)
+(*     accumulator update while in range (emitted * scale / L is truncated at *)
+(*     18 decimals: ulp = 1e-18 / scale tokens per unit of liquidity; rate *  *)
+(*     elapsed is truncated at 1e-18), the same once more for the pending     *)
+(*     update the claimable query performs;                                   *)
+(*   + 1 per claim and 1 for the pending query (truncation to whole tokens);  *)
+(*   + per re-distribution received: liq * ulp + (liq / L') * dust of the     *)
+(*     forfeiting position (its real forfeit may fall short by that much).    *)
+(* u = 1e-18 per record and update: truncating rate * elapsed delays emission *)
+(* by less than that, nothing else in the code rounds in a position's favour. *)
+(* Calibration (unchanged tree, seeds 1-5, quick + thorough): C never exceeded *)
+(* ia at all; worst slack / dust where the ulp term dominates (dust >= 10):    *)
+(* 0.73; where whole-token truncation dominates: 1.0 (999 of 1000 paid).      *)
+(* StartClip = TRUE is the property (a record emits from its start time on);  *)
+(* StartClip = FALSE replaces the overlap by what the code is known to do     *)
+(* (finding C08 'incentive emits for time before its start': the first update *)
+(* after the start emits for the whole time since the previous update, never  *)
+(* for time before the record was created) so that everything else stays      *)
+(* checked on histories showing that deviation.                               *)
 EXTENDS CLSwapIdeal, TraceLib
+
+CONSTANT StartClip
 
 VARIABLES l, prev, conf,
           E,      \* id -> <<rational, rational>>   ideal spread rewards earned, per pool token
           P,      \* id -> <<BigNum, BigNum>>       spread rewards collected so far
           N,      \* id -> Nat                      accrual / claim events
           D,      \* id -> rational                 accumulated growth-truncation allowance
+          RD,     \* id -> rational                 share of other positions' claim dust the code re-credited to it (upper side only)
           inRangeEver,  \* id -> BOOLEAN            was in range at some logged state since creation
-          incAllow      \* rational: accumulated truncation allowance of the incentive accumulators
+          incAllow,     \* rational: accumulated truncation allowance of the incentive accumulators
+          G             \* ghost of the incentive accrual oracle (see IncG0)
 
 Ev == Log[l + 1]
 IdxOf(seq, Q(_)) == CHOOSE k \in 1..Len(seq) : Q(seq[k])
@@ -124,6 +172,19 @@ NextD(ev) ==
                  ratioSlack == IF k > 0 THEN RScaled(B!Mul(B!OfInt(2), Charged(ev.st, ev.who, ev.args.zfo)), 18) ELSE RZero
              IN  RNorm(RAdd(RAdd(D[i], ratioSlack), RMul(RInt(B!OfInt(k)), RMul(RScaled(p.liq, 18), UlpFee))))]
 
+\* Pools on the old side of the spread-factor scaling migration do not drop the sub-unit remainder of a claim:
+\* prepareClaimableSpreadRewards adds it back to the accumulator divided by the total shares that remain, so every
+\* position in range at that moment is credited liq / total shares of (less than) one unit per pool token.
+FeeClaim(ev) == ev.ok /\ (ev.op \in {"collectFee", "add"} \/ (ev.op = "withdraw" /\ ev.args.liq = PosOf(prev, ev.args.id).liq))
+NextRD(ev) ==
+    LET st == ev.st
+        skip(i) == ev.op = "add" /\ i = ev.res.id          \* created after the claim of add-to-position
+        tot == B!Sum([j \in 1..Len(st.pos) |-> IF skip(st.pos[j].id) THEN B!Zero ELSE st.pos[j].liq])
+    IN  [i \in AllIds(st) |->
+            LET old == IF i \in DOMAIN RD THEN RD[i] ELSE RZero IN
+            IF ~conf.scaledFee /\ FeeClaim(ev) /\ i \in PosIds(st) /\ ~skip(i) /\ InRangeNow(st, PosOf(st, i)) /\ tot.s > 0
+            THEN RNorm(RAdd(old, <<PosOf(st, i).liq, tot>>)) ELSE old]
+
 NextInRange(ev) ==
     [i \in AllIds(ev.st) |->
         (IF i \in DOMAIN inRangeEver THEN inRangeEver[i] ELSE FALSE)
@@ -134,13 +195,13 @@ NextInRange(ev) ==
 \* the checks ---------------------------------------------------------------------
 Claimable(st, i, d) == IF i \in PosIds(st) THEN PosOf(st, i).fee[d] ELSE B!Zero
 
-FeeBoundsOK(st, e, p, n, dd) ==
+FeeBoundsOK(st, e, p, n, dd, rd) ==
     \A i \in DOMAIN e : \A d \in 1..2 :
         LET c  == RInt(B!Add(Claimable(st, i, d), p[i][d]))
             ee == e[i][d]
             k  == RInt(B!OfInt(2 * n[i] + 2))
-            ok == /\ (RIsZero(ee) => RIsZero(c))                                        \* never earned => nothing
-                  /\ RLe(c, RAdd(RAdd(RMul(ee, RAdd(ROne, Eps)), dd[i]), k))            \* never more than earned
+            ok == /\ ((RIsZero(ee) /\ RIsZero(rd[i])) => RIsZero(c))                    \* never earned (nor re-credited claim dust) => nothing
+                  /\ RLe(c, RAdd(RAdd(RAdd(RMul(ee, RAdd(ROne, Eps)), dd[i]), k), rd[i]))   \* never more than earned
                   /\ RLe(RSub(RSub(RMul(ee, RSub(ROne, Eps)), dd[i]), k), c)            \* short only by dust
         IN  ok \/ (PrintT(<<"FEE-BOUNDS", [id |-> i, denom |-> d, claimablePlusPaid |-> B!ToInt(B!Min(RFloor(c), B!OfInt(2000000000))),
                                           earnedFloor |-> RFloor(ee), dustFloor |-> RFloor(dd[i]), events |-> n[i]]>>) /\ FALSE)
@@ -178,27 +239,238 @@ IncAccounted(st, allow) ==
         IN  /\ slack.s >= 0
             /\ RLe(RInt(slack), RAdd(allow, ROne))
 
+---------------------------------------------------------------------------
+(* incentives: the exact accrual oracle *)
+IncK == 1..2                                   \* k <-> incentive denom k + 2 of the log (inca, incb)
+E18 == B!Pow(B!OfInt(10), 18)
+HasLiq(st) == B!Ge(st.liq, E18)                \* the code emits / re-deposits only with active liquidity >= 1
+LiqR(p) == RScaled(p.liq, 18)
+InR(st, i) == i \in PosIds(st) /\ InRangeNow(st, PosOf(st, i))
+Young(st, p, k) == st.t - p.join < conf.incUpMs[k] \/ (conf.incUpMs[k] = 0 /\ st.t = p.join)
+
+RECURSIVE RSumFrom(_, _)
+RSumFrom(s, i) == IF i > Len(s) THEN RZero ELSE RAdd(s[i], RSumFrom(s, i + 1))
+RSumSeq(s) == RNorm(RSumFrom(s, 1))
+
+IncG0 == [ia |-> <<>>,      \* id -> <<rational, rational>>  ideally accrued so far (re-distributions received included)
+          ic |-> <<>>,      \* id -> <<rational, rational>>  ia at the last settlement (collect / withdraw / add)
+          ip |-> <<>>,      \* id -> <<BigNum, BigNum>>      real amounts that left the position (paid out or forfeited)
+          d  |-> <<>>,      \* id -> <<rational, rational>>  dust allowance
+          nc |-> <<>>,      \* id -> Nat                     settlements so far
+          rec |-> <<>>,     \* sequence of [id, k, rate, start, created, rem]   ideal incentive records
+          u |-> RZero,      \* upper allowance
+          dep |-> <<B!Zero, B!Zero>>, paid |-> <<B!Zero, B!Zero>>,      \* deposited by CreateIncentive / paid to owners
+          nacc |-> 0, nint |-> 0, nforf |-> 0, nforfIdle |-> 0, nclaim |-> 0, nchk |-> 0, nquirk |-> 0,
+          w |-> RZero, wbig |-> RZero, wabs |-> RZero]                  \* calibration: worst slack / dust
+
+\* where the emission of record r over [a, b] starts (lu = time of the last persisted accumulator update)
+EmitFrom(r, a, b, lu) ==
+    IF StartClip THEN (IF r.start > a THEN r.start ELSE a)
+    ELSE IF r.start < a THEN a
+    ELSE IF r.start < b THEN (IF lu > r.created THEN lu ELSE r.created)
+    ELSE b
+EmitOf(r, a, b, lu) ==
+    LET f == EmitFrom(r, a, b, lu) IN
+    IF f >= b \/ ~RPos(r.rem) THEN RZero
+    ELSE RMin(RMul(r.rate, <<B!OfInt(b - f), B!OfInt(1000)>>), r.rem)
+
+Accrue(g, st) ==
+    LET a == prev.t  b == st.t IN
+    IF b <= a THEN g
+    ELSE IF ~HasLiq(prev) THEN [g EXCEPT !.nint = @ + 1]
+    ELSE LET n == Len(g.rec)
+             em == [j \in 1..n |-> EmitOf(g.rec[j], a, b, prev.lastUp)]
+             tot == [k \in IncK |-> RSumSeq([j \in 1..n |-> IF g.rec[j].k = k THEN em[j] ELSE RZero])]
+             L == RScaled(prev.liq, 18)
+         IN  [g EXCEPT !.rec = [j \in 1..n |-> [g.rec[j] EXCEPT !.rem = RNorm(RSub(g.rec[j].rem, em[j]))]],
+                       !.ia = [i \in DOMAIN g.ia |->
+                                  IF InR(prev, i)
+                                  THEN [k \in IncK |-> IF RIsZero(tot[k]) THEN g.ia[i][k]
+                                                       ELSE RNorm(RAdd(g.ia[i][k], RDiv(RMul(tot[k], LiqR(PosOf(prev, i))), L)))]
+                                  ELSE g.ia[i]],
+                       !.nint = @ + 1,
+                       !.nacc = @ + Cardinality({j \in 1..n : RPos(em[j])}),
+                       !.nquirk = @ + Cardinality({j \in 1..n : RPos(em[j]) /\ EmitFrom(g.rec[j], a, b, prev.lastUp) < a})]
+
+\* stored records of incentive denom k that an update at time `now` emits for
+LiveN(st, k, now) == Cardinality({j \in 1..Len(st.recs) : st.recs[j].denom = k + 1 /\ st.recs[j].start < now})
+UnitDust(p) == RAdd(RMul(LiqR(p), UlpInc), RScaled(B!One, 18))
+ClaimDust == RAdd(ROne, RScaled(B!One, 18))     \* truncation to whole tokens (< 1) after a product truncated at 1e-18
+
+\* a persisted accumulator update (pool.LastLiquidityUpdate moved): one truncation per live record
+SyncDust(g, st) ==
+    IF st.lastUp = prev.lastUp \/ ~HasLiq(prev) THEN g
+    ELSE [g EXCEPT !.d = [i \in DOMAIN g.d |->
+                             IF InR(prev, i)
+                             THEN [k \in IncK |-> RNorm(RAdd(g.d[i][k], RMul(RInt(B!OfInt(LiveN(prev, k, st.lastUp))), UnitDust(PosOf(prev, i)))))]
+                             ELSE g.d[i]],
+                  !.u = RNorm(RAdd(g.u, RScaled(B!OfInt(Len(prev.recs)), 18)))]
+
+NewPos(g, st) ==
+    LET ids == DOMAIN g.ia \cup PosIds(st)
+        Ext(f, z) == [i \in ids |-> IF i \in DOMAIN f THEN f[i] ELSE z]
+    IN  [g EXCEPT !.ia = Ext(g.ia, ZeroE), !.ic = Ext(g.ic, ZeroE), !.ip = Ext(g.ip, ZeroP), !.d = Ext(g.d, ZeroE), !.nc = Ext(g.nc, 0)]
+
+ClaimOps == {"collectInc", "withdraw", "add"}
+IsClaim(ev) == ev.ok /\ ev.op \in ClaimOps
+\* the liquidity a forfeit is re-deposited to: in range after the operation; add-to-position re-deposits
+\* before it creates the new position
+Receivers(ev) == {i \in PosIds(ev.st) : InR(ev.st, i) /\ ~(ev.op = "add" /\ i = ev.res.id)}
+RecvLiq(ev) == LET st == ev.st  rc == Receivers(ev) IN
+               RSumSeq([j \in 1..Len(st.pos) |-> IF st.pos[j].id \in rc THEN LiqR(st.pos[j]) ELSE RZero])
+
+Claim(g, ev) ==
+    IF ~IsClaim(ev) THEN g
+    ELSE LET st == ev.st
+             p == ev.args.id
+             pp == PosOf(prev, p)
+             rc == Receivers(ev)
+             L2 == RecvLiq(ev)
+             active == RLe(ROne, L2)
+             fi == [k \in IncK |-> RNorm(RSub(g.ia[p][k], g.ic[p][k]))]
+             forf == [k \in IncK |-> Young(st, pp, k) /\ RPos(fi[k])]
+             redis == [k \in IncK |-> forf[k] /\ active]
+             dp == [k \in IncK |-> RAdd(g.d[p][k], ClaimDust)]
+             share(i, x) == RDiv(RMul(x, LiqR(PosOf(st, i))), L2)
+         IN  [g EXCEPT
+                !.ia = [i \in DOMAIN g.ia |-> [k \in IncK |->
+                           IF redis[k] /\ i \in rc THEN RNorm(RAdd(g.ia[i][k], share(i, fi[k]))) ELSE g.ia[i][k]]],
+                !.ic = [i \in DOMAIN g.ic |-> IF i = p THEN g.ia[p] ELSE g.ic[i]],
+                !.ip = [i \in DOMAIN g.ip |-> IF i = p THEN [k \in IncK |-> B!Add(g.ip[p][k], B!Add(pp.inc[k + 2], pp.forf[k + 2]))] ELSE g.ip[i]],
+                !.d = [i \in DOMAIN g.d |-> [k \in IncK |->
+                           LET base == IF i = p THEN dp[k] ELSE g.d[i][k] IN
+                           IF redis[k] /\ i \in rc
+                           THEN RNorm(RAdd(base, RAdd(RMul(LiqR(PosOf(st, i)), UlpInc), share(i, dp[k])))) ELSE base]],
+                !.nc = [i \in DOMAIN g.nc |-> IF i = p THEN g.nc[i] + 1 ELSE g.nc[i]],
+                !.paid = [k \in IncK |-> B!Add(g.paid[k], B!Sub(st.userBal[ev.who][k + 2], prev.userBal[ev.who][k + 2]))],
+                !.nclaim = @ + 1,
+                !.nforf = @ + Cardinality({k \in IncK : redis[k]}),
+                !.nforfIdle = @ + Cardinality({k \in IncK : forf[k] /\ ~active})]
+
+NewRec(g, ev) ==
+    IF ~(ev.ok /\ ev.op = "incentive") THEN g
+    ELSE LET k == ev.args.denom - 1 IN
+         [g EXCEPT !.rec = Append(g.rec, [id |-> ev.res.id, k |-> k, rate |-> RScaled(ev.args.rate, 18), start |-> ev.args.start,
+                                          created |-> ev.st.t, rem |-> RInt(ev.args.amt)]),
+                   !.dep = [j \in IncK |-> IF j = k THEN B!Add(g.dep[j], ev.args.amt) ELSE g.dep[j]]]
+
+\* judged quantities ------------------------------------------------------------------
+CNow(g, st, i, k) == B!Add(g.ip[i][k], IF i \in PosIds(st) THEN B!Add(PosOf(st, i).inc[k + 2], PosOf(st, i).forf[k + 2]) ELSE B!Zero)
+\* the claimable query brings accrual up to now on a branch (one more truncation per live record) and truncates to whole tokens
+Pend(st, i, k) ==
+    IF i \notin PosIds(st) THEN RZero
+    ELSE RAdd(ClaimDust, IF st.t > st.lastUp /\ HasLiq(st) /\ InR(st, i)
+                    THEN RMul(RInt(B!OfInt(LiveN(st, k, st.t))), UnitDust(PosOf(st, i))) ELSE RZero)
+DustNow(g, st, i, k) == RAdd(g.d[i][k], Pend(st, i, k))
+UpNow(g, st) == RAdd(g.u, RScaled(B!OfInt(Len(st.recs) + 1), 18))
+
+IncBoundsOK(g, st) ==
+    \A i \in DOMAIN g.ia : \A k \in IncK :
+        LET c == RInt(CNow(g, st, i, k))
+            a == g.ia[i][k]
+            ok == /\ RLe(c, RAdd(a, UpNow(g, st)))
+                  /\ RLe(RSub(a, DustNow(g, st, i, k)), c)
+        IN  ok \/ (PrintT(<<"INC-BOUNDS", [id |-> i, denom |-> k + 2, claimablePlusOut |-> RFloor(c), accruedFloor |-> RFloor(a),
+                                          accruedMilli |-> RFloor(RMul(a, RInt(B!OfInt(1000)))),
+                                          dustMilli |-> RFloor(RMul(DustNow(g, st, i, k), RInt(B!OfInt(1000)))), t |-> st.t]>>) /\ FALSE)
+
+IncNeverOK(g, st) == \A i \in DOMAIN g.ia : \A k \in IncK : RIsZero(g.ia[i][k]) => CNow(g, st, i, k).s = 0
+
+\* twins and k-multiples: same range and join time, ideal accruals proportional to liquidity => real ones too;
+\* identical liquidity and no settlement yet => identical to the unit
+RAbs(x) == IF x[1].s < 0 THEN <<B!Neg(x[1]), x[2]>> ELSE x
+IncPropOK(g, st) ==
+    \A x \in 1..Len(st.pos) : \A y \in 1..Len(st.pos) :
+        LET p == st.pos[x]  q == st.pos[y] IN
+        (x < y /\ p.lo = q.lo /\ p.hi = q.hi /\ p.join = q.join) =>
+            \A k \in IncK :
+                REq(RMul(g.ia[p.id][k], LiqR(q)), RMul(g.ia[q.id][k], LiqR(p))) =>
+                    /\ RLe(RAbs(RSub(RMul(RInt(CNow(g, st, p.id, k)), LiqR(q)), RMul(RInt(CNow(g, st, q.id, k)), LiqR(p)))),
+                           RAdd(RMul(RAdd(DustNow(g, st, p.id, k), UpNow(g, st)), LiqR(q)), RMul(RAdd(DustNow(g, st, q.id, k), UpNow(g, st)), LiqR(p))))
+                    /\ (p.liq = q.liq /\ g.nc[p.id] = 0 /\ g.nc[q.id] = 0) => (p.inc[k + 2] = q.inc[k + 2] /\ p.forf[k + 2] = q.forf[k + 2])
+
+\* total ever claimable never exceeds the total paid in; the account holds exactly deposited - paid
+IncTotalOK(g, st) ==
+    \A k \in IncK :
+        /\ B!Eq(st.incBal[k + 2], B!Sub(g.dep[k], g.paid[k]))
+        /\ B!Le(B!Add(B!Mul(B!Add(B!Sum([j \in 1..Len(st.pos) |-> B!Add(st.pos[j].inc[k + 2], st.pos[j].forf[k + 2])]), g.paid[k]), E18), st.remNow[k + 2]),
+                B!Mul(g.dep[k], E18))
+
+\* a settlement pays the owner exactly what the position could claim; what it has not matured is paid
+\* only when no other liquidity is active
+IncPaidOK(g, ev) ==
+    IsClaim(ev) =>
+        LET st == ev.st  pp == PosOf(prev, ev.args.id)  active == RLe(ROne, RecvLiq(ev)) IN
+        \A k \in IncK :
+            /\ B!Eq(B!Sub(st.userBal[ev.who][k + 2], prev.userBal[ev.who][k + 2]),
+                    B!Add(pp.inc[k + 2], IF Young(st, pp, k) /\ ~active THEN pp.forf[k + 2] ELSE B!Zero))
+            /\ (~Young(st, pp, k)) => pp.forf[k + 2].s = 0
+            /\ ev.op = "collectInc" => (B!Eq(ev.res.got[k + 2], pp.inc[k + 2]) /\ B!Eq(ev.res.forf[k + 2], pp.forf[k + 2]))
+
+\* a position that has met the uptime of a denom has nothing of it reported as forfeitable
+IncMaturedOK(st) == \A j \in 1..Len(st.pos) : \A k \in IncK : (~Young(st, st.pos[j], k)) => st.pos[j].forf[k + 2].s = 0
+
+IncDepositOK(ev) ==
+    (ev.ok /\ ev.op = "incentive") =>
+        LET d == ev.args.denom + 1 IN
+        /\ B!Eq(B!Sub(ev.st.incBal[d], prev.incBal[d]), ev.args.amt)
+        /\ B!Eq(B!Sub(prev.userBal[ev.who][d], ev.st.userBal[ev.who][d]), ev.args.amt)
+
+\* calibration statistics: worst slack / dust over everything judged (acc = <<w, wbig, wabs>>)
+RECURSIVE WorstOver(_, _, _, _)
+WorstOver(g, st, S, acc) ==
+    IF S = {} THEN acc
+    ELSE LET r == CHOOSE x \in S : TRUE
+             sl == RSub(g.ia[r[1]][r[2]], RInt(CNow(g, st, r[1], r[2])))
+             du == DustNow(g, st, r[1], r[2])
+         IN  WorstOver(g, st, S \ {r},
+                       IF ~(RPos(sl) /\ RPos(du)) THEN acc
+                       ELSE LET ra == RNorm(RDiv(sl, du)) IN
+                            <<RMax(acc[1], ra), IF RLe(RInt(B!OfInt(10)), du) THEN RMax(acc[2], ra) ELSE acc[2], RMax(acc[3], RNorm(sl))>>)
+Stat(g, st) ==
+    LET rows == {<<i, k>> : i \in DOMAIN g.ia, k \in IncK}
+        acc == WorstOver(g, st, rows, <<g.w, g.wbig, g.wabs>>)
+    IN  [g EXCEPT !.w = acc[1], !.wbig = acc[2], !.wabs = acc[3], !.nchk = @ + Cardinality(rows)]
+
+NextG(ev) == Stat(NewRec(Claim(NewPos(SyncDust(Accrue(G, ev.st), ev.st), ev.st), ev), ev), ev.st)
+
+Milli(r) == LET f == RFloor(RMul(r, RInt(B!OfInt(1000)))) IN IF B!Le(f, B!OfInt(2000000000)) THEN B!ToInt(f) ELSE 2000000000
+PrintStats(g) == PrintT(<<"INC-STATS", ToJson([intervals |-> g.nint, accruals |-> g.nacc, records |-> Len(g.rec), settlements |-> g.nclaim,
+                                                 redistributions |-> g.nforf, forfeitsPaidIdle |-> g.nforfIdle, judged |-> g.nchk,
+                                                 beforeStart |-> g.nquirk, worstMilli |-> Milli(g.w), worstBigMilli |-> Milli(g.wbig),
+                                                 worstAbsMilli |-> Milli(g.wabs), positions |-> Cardinality(DOMAIN g.ia)])>>)
+
 TraceInit ==
     /\ HWInit /\ l = 1 /\ Log[1].e = "cfg"
     /\ conf = Log[1] /\ prev = Log[1].st
-    /\ E = <<>> /\ P = <<>> /\ N = <<>> /\ D = <<>> /\ inRangeEver = <<>> /\ incAllow = RZero
+    /\ E = <<>> /\ P = <<>> /\ N = <<>> /\ D = <<>> /\ RD = <<>> /\ inRangeEver = <<>> /\ incAllow = RZero /\ G = IncG0
 
 TReset == /\ l < NLines /\ Ev.e = "cfg"
           /\ conf' = Ev /\ prev' = Ev.st
-          /\ E' = <<>> /\ P' = <<>> /\ N' = <<>> /\ D' = <<>> /\ inRangeEver' = <<>> /\ incAllow' = RZero
+          /\ E' = <<>> /\ P' = <<>> /\ N' = <<>> /\ D' = <<>> /\ RD' = <<>> /\ inRangeEver' = <<>> /\ incAllow' = RZero /\ G' = IncG0
+          /\ PrintStats(G)
 
 TOp == /\ l < NLines /\ Ev.e = "op"
-       /\ E' = NextE(Ev) /\ P' = NextP(Ev) /\ N' = NextN(Ev) /\ D' = NextD(Ev)
+       /\ E' = NextE(Ev) /\ P' = NextP(Ev) /\ N' = NextN(Ev) /\ D' = NextD(Ev) /\ RD' = NextRD(Ev)
        /\ inRangeEver' = NextInRange(Ev)
        /\ incAllow' = RNorm(RAdd(incAllow, StepAllow(Ev)))
        /\ Chk("claimable queries answer", \A k \in 1..Len(Ev.st.pos) : Ev.st.pos[k].qerr = "")
-       /\ Chk("spread rewards within [earned - dust, earned]", FeeBoundsOK(Ev.st, E', P', N', D'))
+       /\ Chk("spread rewards within [earned - dust, earned]", FeeBoundsOK(Ev.st, E', P', N', D', RD'))
        /\ Chk("incentive uptime / never-in-range", IncOK(Ev))
        /\ Chk("emitted incentives accounted for", IncAccounted(Ev.st, incAllow'))
+       /\ G' = NextG(Ev)
+       /\ Chk("incentive deposit moves the amount into the incentive account", IncDepositOK(Ev))
+       /\ Chk("incentives paid = claimable, unmatured ones never paid while other liquidity is active", IncPaidOK(G', Ev))
+       /\ Chk("matured incentives are claimable, not forfeitable", IncMaturedOK(Ev.st))
+       /\ Chk("incentives never accrued => exactly zero", IncNeverOK(G', Ev.st))
+       /\ Chk("incentives within [accrued - dust, accrued + dust]", IncBoundsOK(G', Ev.st))
+       /\ Chk("incentive twins equal, k-multiples proportional", IncPropOK(G', Ev.st))
+       /\ Chk("incentives claimable + collected + undistributed <= deposited", IncTotalOK(G', Ev.st))
+       /\ (l + 1 = NLines => PrintStats(G'))
        /\ prev' = Ev.st /\ UNCHANGED conf
 
 TraceNext == (TReset \/ TOp) /\ l' = l + 1
-TraceSpec == TraceInit /\ [][TraceNext]_<<l, prev, conf, E, P, N, D, inRangeEver, incAllow>>
+TraceSpec == TraceInit /\ [][TraceNext]_<<l, prev, conf, E, P, N, D, RD, inRangeEver, incAllow, G>>
 Mark == HWMark(l)
 Accepted == HWAccepted
 =============================================================================
